@@ -218,6 +218,19 @@ template <class T> static void product(pbt::Ctx& c) {
 		if (bits_q(x, g)) c.cls("cross(q1,q2) bit-identical to q1*q2");
 		glm::qua<T> y = A; y *= B;
 		if (!bits_q(y, g)) c.failk(key<T>("quat*=quat", "equals-binary-product"), "q1*=q2 gives %s, q1*q2 gives %s", gq(y).c_str(), gq(g).c_str());
+		// mixed element types: qua<T> op= qua<U> with U the other of float/double. The left operand keeps its own precision: the result is
+		// the product (sum, difference) of q1 and q2 converted to T, within the bound of the same-type operator
+		typedef typename std::conditional<std::is_same<T, float>::value, double, float>::type UT;
+		glm::qua<UT> BU(B);
+		const glm::qua<T> BT(BU);
+		glm::qua<T> ym = A; ym *= BU;
+		const glm::qua<T> gm = A * BT;
+		Qn rym = qn_of(ym), rgm = qn_of(gm);
+		for (int i = 0; i < 4; ++i)
+			if (!within(c, "q1*=q2(other element type) err/tol", rabs(qget(rym, i) - qget(rgm, i)), 64 * u * qget(S, i) + TINY<T>()))
+				c.failk(key<T>("quat*=quat<U>", "equals-product-with-converted-operand"), "q1 *= qua<%s>(q2) gives %s, q1 * qua<T>(q2) gives %s", sizeof(UT) == 4 ? "float" : "double", gq(ym).c_str(), gq(gm).c_str());
+		glm::qua<T> ya = A; ya += BU; glm::qua<T> ys = A; ys -= BU;
+		if (!bits_q(ya, A + BT) || !bits_q(ys, A - BT)) c.failk(key<T>("quat+=quat<U>", "component-wise"), "q1 += / -= qua<%s>(q2) gives %s / %s, component-wise %s / %s", sizeof(UT) == 4 ? "float" : "double", gq(ya).c_str(), gq(ys).c_str(), gq(A + BT).c_str(), gq(A - BT).c_str());
 	}
 	if (unit) {
 		const R d1 = rabs(qnorm2(ra) - 1), d2 = rabs(qnorm2(rb) - 1), d12 = rabs(qnorm2(rg) - 1);
@@ -562,7 +575,7 @@ int main(int argc, char** argv) {
 		glm::qua<float> q; q.w = 1; q.x = 2; q.y = 3; q.z = 4;
 		const float* p = &q.x < &q.w ? &q.x : &q.w;
 		bool wfirst = p[0] == 1.0f;
-		if (wfirst != (std::string(C04_CFG) == "wxyz")) { fprintf(stderr, "C04: binary built as %s but quaternion storage starts with %s\n", C04_CFG, wfirst ? "w" : "x"); return 2; }
+		if (wfirst != (std::string(C04_CFG).compare(0, 4, "wxyz") == 0)) { fprintf(stderr, "C04: binary built as %s but quaternion storage starts with %s\n", C04_CFG, wfirst ? "w" : "x"); return 2; }
 	}
 	return pbt::pbt_main(argc, argv, "C04");
 }
